@@ -111,7 +111,12 @@ def cases(draw):
         k = draw(st.sampled_from([1, 1, 2, 3, 4]))
         steps.append(rest[:k])
         rest = rest[k:]
-    return {"domains": domains, "variables": variables, "rel": rel, "assignment": assignment, "steps": steps}
+    case = {"domains": domains, "variables": variables, "rel": rel, "assignment": assignment, "steps": steps}
+    if steps and draw(st.booleans()):
+        # the same relation is evaluated and sliced a second time, in the same process, on another assignment:
+        # nothing may be remembered from the first pass
+        case["assignment2"] = {s: draw(st.sampled_from(doms[s])) for s in scope}
+    return case
 
 
 def case_strategy(tier):
@@ -207,6 +212,17 @@ def _eval_all_forms(r, a_full, what):
 
 
 def run_case(case):
+    out = _run_one(case)
+    if out.ok and not out.discard and case.get("assignment2") and case["assignment2"] != case["assignment"]:
+        out2 = _run_one(dict(case, assignment=case["assignment2"]))
+        out2.labels.append("second-pass")
+        if not out2.ok:
+            out2.why = "[second pass over the same relation in this process, after %r] %s" % (case["assignment"], out2.why)
+        return out2
+    return out
+
+
+def _run_one(case):
     desc, rel, a = case, case["rel"], case["assignment"]
     kind = rel["kind"]
     labels = ["kind:" + kind, "arity:%d" % len(rel["scope"]), "steps:%d" % len(case["steps"])]
